@@ -5,6 +5,7 @@
 #include <openssl/core_names.h>
 #include <gnutls/gnutls.h>
 #include <gnutls/abstract.h>
+#include <openssl/err.h>
 
 // ================================================================ providers
 const char *prov_name(int p)
@@ -479,6 +480,7 @@ std::string apply_mutation(const Step &m, std::string &tok, MutCtx &mc, bool &de
 		parts[2].clear();
 		destroys = true;
 	} else if (op == "esframe") {
+		ERR_set_mark(); // harness use of OpenSSL leaves the thread's error queue as it found it
 		if (np >= 3) {
 			std::string sig;
 			if (b64_decode_lenient(parts[2], sig) && sig.size() >= 8 && sig.size() % 2 == 0) {
@@ -531,6 +533,7 @@ std::string apply_mutation(const Step &m, std::string &tok, MutCtx &mc, bool &de
 			}
 			encoding_level = true;
 		}
+		ERR_pop_to_mark();
 	}
 	tok = join_dots(parts);
 	return desc;
